@@ -1,0 +1,102 @@
+// Copyright 2017 Pilosa Corp.
+//
+// Licensed under the Apache License, Version 2.0 (the "License");
+// you may not use this file except in compliance with the License.
+// You may obtain a copy of the License at
+//
+//     http://www.apache.org/licenses/LICENSE-2.0
+//
+// Unless required by applicable law or agreed to in writing, software
+// distributed under the License is distributed on an "AS IS" BASIS,
+// WITHOUT WARRANTIES OR CONDITIONS OF ANY KIND, either express or implied.
+// See the License for the specific language governing permissions and
+// limitations under the License.
+
+package roaring_test
+
+import (
+	"bytes"
+	"testing"
+
+	"github.com/pilosa/pilosa/roaring"
+	"github.com/pkg/errors"
+)
+
+// countingWriter records the size of every Write.
+type countingWriter struct {
+	bytes.Buffer
+	writes []int
+}
+
+func (w *countingWriter) Write(p []byte) (int, error) {
+	w.writes = append(w.writes, len(p))
+	return w.Buffer.Write(p)
+}
+
+// Every op log entry must reach the file in one write, and a log that ends
+// inside its last entry (the process died while appending) must decode up to
+// the last complete entry and say where to cut.
+func TestBitmap_OpLog_TornTail(t *testing.T) {
+	var w countingWriter
+	b := roaring.NewFileBitmap(1, 2)
+	if _, err := b.WriteTo(&w); err != nil {
+		t.Fatal(err)
+	}
+	w.writes = nil
+	b.OpWriter = &w
+	if _, err := b.Add(100); err != nil {
+		t.Fatal(err)
+	}
+	if _, err := b.AddN(200, 201); err != nil {
+		t.Fatal(err)
+	}
+	valid := w.Len()
+
+	var other bytes.Buffer
+	if _, err := roaring.NewBitmap(70000, 70001).WriteTo(&other); err != nil {
+		t.Fatal(err)
+	}
+	if _, _, err := b.ImportRoaringBits(other.Bytes(), false, true, 0); err != nil {
+		t.Fatal(err)
+	}
+	if len(w.writes) != 3 {
+		t.Fatalf("expected one write per op log entry, got writes of %v bytes", w.writes)
+	}
+
+	full := w.Bytes()
+	for cut := valid + 1; cut < len(full); cut++ {
+		nb := roaring.NewFileBitmap()
+		err := nb.UnmarshalBinary(full[:cut])
+		torn, ok := errors.Cause(err).(*roaring.TornOpLogError)
+		if !ok {
+			t.Fatalf("cut at %d of %d: expected TornOpLogError, got %v", cut, len(full), err)
+		} else if torn.ValidLength != int64(valid) {
+			t.Fatalf("cut at %d: valid length %d, expected %d", cut, torn.ValidLength, valid)
+		}
+		for _, v := range []uint64{1, 2, 100, 200, 201} {
+			if !nb.Contains(v) {
+				t.Fatalf("cut at %d: value %d of a complete entry is missing", cut, v)
+			}
+		}
+		if nb.Contains(70000) || nb.Contains(70001) {
+			t.Fatalf("cut at %d: torn entry was applied", cut)
+		}
+	}
+
+	// The complete log still decodes, and damage inside a complete entry is
+	// still an error that is not mistaken for a torn tail.
+	nb := roaring.NewFileBitmap()
+	if err := nb.UnmarshalBinary(full); err != nil {
+		t.Fatal(err)
+	} else if !nb.Contains(70001) {
+		t.Fatal("roaring op not applied")
+	}
+	bad := append([]byte(nil), full...)
+	bad[valid-1] ^= 0xff
+	err := roaring.NewFileBitmap().UnmarshalBinary(bad)
+	if err == nil {
+		t.Fatal("expected checksum error")
+	} else if _, ok := errors.Cause(err).(*roaring.TornOpLogError); ok {
+		t.Fatalf("corruption reported as torn tail: %v", err)
+	}
+}
